@@ -2,6 +2,8 @@ SPECIFICATION MCSpec
 CONSTANTS Sender = {"s1", "s2"}
           MaxFaults = 1
           MaxCfg = 2
+          Addr = {"A"}
+          Stall = FALSE
           QueueMode = TRUE
           QCap = 2
           MaxConn = 3
